@@ -148,7 +148,7 @@ impl Prop for C12 {
             any::<u8>().prop_map(PMut::DupBlock),
         ];
         (
-            prop_oneof![240 => graph_strategy(&ALL_KINDS, 1, 10, me, &[0, 1, 1, 6, 8], 3), 20 => graph_strategy(&ALL_KINDS, 11, 25, me, &[0, 1], 3), 1 => boundary_graph_strategy(&ALL_KINDS, me, &[0, 1], 3, 255)],
+            prop_oneof![240 => graph_strategy(&ALL_KINDS, 1, 10, me, &[0, 1, 1, 6, 8, 9], 3), 20 => graph_strategy(&ALL_KINDS, 11, 25, me, &[0, 1], 3), 1 => boundary_graph_strategy(&ALL_KINDS, me, &[0, 1], 3, 255)],
             any::<u8>(),
             vec(any::<u8>(), 255),
             prop_oneof![4 => Just(0u8), 1 => 1u8..3],
@@ -212,7 +212,8 @@ impl Prop for C12 {
                         if overlap && missing { "modularity/non_partition_accepted/overlap_plus_omission" } else { "modularity/non_partition_accepted/other" },
                         format!("modularity({:?}) = {} but the family is not a partition of {:?}", fam, q, ng.names),
                     );
-                } else if !ng.edges.is_empty() {
+                } else if !ng.edges.is_empty() && (!weighted || ng.edges.iter().map(|e| e.2).sum::<f64>().abs() >= 0.25) {
+                    // (with signed weights the total can cancel; the formula divides by it)
                     let idx: Vec<Vec<usize>> = fam.iter().map(|b| b.iter().map(|x| ng.index_of(x).unwrap()).collect()).collect();
                     let want = modularity_oracle(&ng, &idx, weighted, resolution.unwrap_or(1.0));
                     if !approx(q, want, 1e-9, 1e-12) {
@@ -232,6 +233,9 @@ impl Prop for C12 {
         }
         if weighted {
             out.class("weighted");
+        }
+        if weighted && ng.edges.iter().any(|e| e.2 < 0.0) {
+            out.class("signed_weights");
         }
         let nonempty = fam.iter().filter(|b| !b.is_empty()).count();
         let block_of = |i: usize| fam.iter().position(|b| b.contains(&ng.names[i]));
